@@ -28,8 +28,74 @@ class C05Spec(ModelSpec):
         self.ops = ops
 
 
+def aligned_lists(rep):
+    """Reference lists whose lines end exactly on multiples of the I/O buffer sizes (1024-character lines: 4 lines =
+    4096, 8 lines = 8192 characters), before and after the alignment is shifted by a short pid: every bound pid
+    must stay retrievable and the list must hold exactly the bound pids, one per line."""
+    import os
+    from ..absx import Layout
+    from ..common import pattern, snapshot
+    from hashstore.filehashstore import FileHashStore
+    root = os.path.join(common.scratch(), "c05-aligned")
+    store = FileHashStore(common.props(root))
+    data = pattern(200, 5)
+    path = os.path.join(common.scratch(), "c05_aligned.bin")
+    with open(path, "wb") as f:
+        f.write(data)
+    import hashlib
+    cid = hashlib.sha256(data).hexdigest()
+    lay = Layout()
+    long_pids = ["%04d" % i + "x" * 1019 for i in range(12)]
+    bound = []
+    n = 0
+
+    def audit(step):
+        nonlocal n
+        n += 1
+        t = snapshot(root)
+        lst = t.get(lay.cid_ref_path(cid))
+        lines = lst.decode().split("\n")[:-1] if lst else []
+        if sorted(lines) != sorted(bound):
+            rep.violation({"kind": "aligned-list", "what": "reference list does not hold exactly the bound pids"},
+                          {"step": step, "listed": len(lines), "bound": len(bound)})
+        for p in bound:
+            try:
+                s = store.retrieve_object(p)
+                ok = s.read() == data
+                s.close()
+            except Exception as e:  # noqa: BLE001
+                ok = False
+            if not ok:
+                rep.violation({"kind": "aligned-list", "what": "a bound pid is not retrievable when list lines end on a buffer boundary"},
+                              {"step": step, "pid": p[:8], "pids_bound": len(bound)})
+                break
+
+    def do(step, fn, pid, add):
+        fn()
+        (bound.append if add else bound.remove)(pid)
+        audit(step)
+
+    do("store short", lambda: store.store_object("s", path), "s", True)
+    for i, p in enumerate(long_pids[:10]):
+        do("store long %d" % i, lambda p=p: store.store_object(p, path), p, True)
+    do("delete short (lines now end on 1024 multiples)", lambda: store.delete_object("s"), "s", False)
+    do("tag long 10", lambda: store.tag_object(long_pids[10], cid), long_pids[10], True)
+    do("delete long 7", lambda: store.delete_object(long_pids[7]), long_pids[7], False)
+    do("store long 11", lambda: store.store_object(long_pids[11], path), long_pids[11], True)
+    do("delete long 3", lambda: store.delete_object(long_pids[3]), long_pids[3], False)
+    do("store short again", lambda: store.store_object("s", path), "s", True)
+    for p in list(bound):
+        do("delete %s" % p[:6], lambda p=p: store.delete_object(p), p, False)
+    t = snapshot(root)
+    left = [r for r, b in t.items() if b is not None and r != "hashstore.yaml"]
+    if left:
+        rep.violation({"kind": "aligned-list", "what": "files remain after every pid was deleted"}, {"files": left[:4]})
+    rep.coverage["aligned_list_steps"] = n
+
+
 def main(tier):
     rep = common.Report("C05", tier, "model_checking")
+    aligned_lists(rep)
     spec = C05Spec(tier)
     res = engine_s.explore(spec, time_cap=240 if tier == "quick" else 3000, seed=common.SEED)
     for sig, det in res.violations:
